@@ -44,6 +44,14 @@ inductive BN : TEnv → AST → TVal → Prop
   /-- ㅈ on two integers -/
   | ltInt {ρ n spf a1 a2 sp x y} : encodeNumber n = [7] → BN ρ a1 (.int x) → BN ρ a2 (.int y) →
       BN ρ (.call (.lit n spf) [a1, a2] sp) (.bool (decide (x < y)))
+  /-- ㅁㄹ builds a list of its argument expressions, none of them evaluated -/
+  | mkList {ρ n spf args sp} : encodeNumber n = [4, 3] →
+      BN ρ (.call (.lit n spf) args sp) (.list (args.map (fun a => (a, ρ))))
+  /-- a list applied to an integer: the element at that position (negative positions count from the end) is evaluated —
+  and no other element -/
+  | index {ρ f a sp elems i e' ρ' v} : tagOf f = none → BN ρ f (.list elems) → BN ρ a (.int i) →
+      pyIndex elems i = some (e', ρ') → BN ρ' e' v → BN ρ (.call f [a] sp) v
+
 
 theorem BN.deterministic {ρ e v1 v2} (h1 : BN ρ e v1) (h2 : BN ρ e v2) : v1 = v2 := by
   induction h1 generalizing v2 with
@@ -63,21 +71,25 @@ theorem BN.deterministic {ρ e v1 v2} (h1 : BN ρ e v1) (h2 : BN ρ e v2) : v1 =
       have := ih1 hf'; cases this
       exact ih2 hb'
     | sel _ hf' _ => have := ih1 hf'; cases this
+    | index _ hf' _ _ _ => have := ih1 hf'; cases this
     | ctrue _ => simp [tagOf] at hf
     | cfalse _ => simp [tagOf] at hf
     | eqInt _ _ _ => simp [tagOf] at hf
     | addInt _ _ _ => simp [tagOf] at hf
     | mulInt _ _ _ => simp [tagOf] at hf
     | ltInt _ _ _ => simp [tagOf] at hf
+    | mkList _ => simp [tagOf] at hf
   | ctrue hn =>
     cases h2 with
     | ctrue _ => rfl
     | cfalse hn' => rw [hn] at hn'; cases hn'
+    | mkList hn' => rw [hn] at hn'; cases hn'
     | call hf _ _ => simp [tagOf] at hf
   | cfalse hn =>
     cases h2 with
     | cfalse _ => rfl
     | ctrue hn' => rw [hn] at hn'; cases hn'
+    | mkList hn' => rw [hn] at hn'; cases hn'
     | call hf _ _ => simp [tagOf] at hf
   | sel hf _ _ ih1 ih2 =>
     cases h2 with
@@ -87,12 +99,14 @@ theorem BN.deterministic {ρ e v1 v2} (h1 : BN ρ e v1) (h2 : BN ρ e v2) : v1 =
     | addInt _ _ _ => simp [tagOf] at hf
     | mulInt _ _ _ => simp [tagOf] at hf
     | ltInt _ _ _ => simp [tagOf] at hf
+    | mkList _ => simp [tagOf] at hf
   | eqInt hn _ _ ih1 ih2 =>
     cases h2 with
     | eqInt _ h1' h2' => have := ih1 h1'; cases this; have := ih2 h2'; cases this; rfl
     | addInt hn' _ _ => rw [hn] at hn'; cases hn'
     | mulInt hn' _ _ => rw [hn] at hn'; cases hn'
     | ltInt hn' _ _ => rw [hn] at hn'; cases hn'
+    | mkList hn' => rw [hn] at hn'; cases hn'
     | call hf _ _ => simp [tagOf] at hf
     | sel hf _ _ => simp [tagOf] at hf
   | addInt hn _ _ ih1 ih2 =>
@@ -101,6 +115,7 @@ theorem BN.deterministic {ρ e v1 v2} (h1 : BN ρ e v1) (h2 : BN ρ e v2) : v1 =
     | eqInt hn' _ _ => rw [hn] at hn'; cases hn'
     | mulInt hn' _ _ => rw [hn] at hn'; cases hn'
     | ltInt hn' _ _ => rw [hn] at hn'; cases hn'
+    | mkList hn' => rw [hn] at hn'; cases hn'
     | call hf _ _ => simp [tagOf] at hf
     | sel hf _ _ => simp [tagOf] at hf
   | mulInt hn _ _ ih1 ih2 =>
@@ -109,6 +124,7 @@ theorem BN.deterministic {ρ e v1 v2} (h1 : BN ρ e v1) (h2 : BN ρ e v2) : v1 =
     | eqInt hn' _ _ => rw [hn] at hn'; cases hn'
     | addInt hn' _ _ => rw [hn] at hn'; cases hn'
     | ltInt hn' _ _ => rw [hn] at hn'; cases hn'
+    | mkList hn' => rw [hn] at hn'; cases hn'
     | call hf _ _ => simp [tagOf] at hf
     | sel hf _ _ => simp [tagOf] at hf
   | ltInt hn _ _ ih1 ih2 =>
@@ -117,8 +133,30 @@ theorem BN.deterministic {ρ e v1 v2} (h1 : BN ρ e v1) (h2 : BN ρ e v2) : v1 =
     | eqInt hn' _ _ => rw [hn] at hn'; cases hn'
     | addInt hn' _ _ => rw [hn] at hn'; cases hn'
     | mulInt hn' _ _ => rw [hn] at hn'; cases hn'
+    | mkList hn' => rw [hn] at hn'; cases hn'
     | call hf _ _ => simp [tagOf] at hf
     | sel hf _ _ => simp [tagOf] at hf
+  | mkList hn =>
+    cases h2 with
+    | mkList _ => rfl
+    | ctrue hn' => rw [hn] at hn'; cases hn'
+    | cfalse hn' => rw [hn] at hn'; cases hn'
+    | eqInt hn' _ _ => rw [hn] at hn'; cases hn'
+    | addInt hn' _ _ => rw [hn] at hn'; cases hn'
+    | mulInt hn' _ _ => rw [hn] at hn'; cases hn'
+    | ltInt hn' _ _ => rw [hn] at hn'; cases hn'
+    | call hf _ _ => simp [tagOf] at hf
+    | sel hf _ _ => simp [tagOf] at hf
+    | index hf _ _ _ _ => simp [tagOf] at hf
+  | index hf _ _ hidx _ ih1 ih2 ih3 =>
+    cases h2 with
+    | index _ hf' ha' hidx' hv' =>
+      have := ih1 hf'; cases this
+      have := ih2 ha'; cases this
+      rw [hidx] at hidx'; cases hidx'
+      exact ih3 hv'
+    | call _ hf' _ => have := ih1 hf'; cases this
+    | mkList _ => simp [tagOf] at hf
 
 /-! ### ghost trees for heap objects -/
 
@@ -203,6 +241,9 @@ inductive RVal (G : Ghost) (s : Store) : Val → TVal → Prop
   | int (n : Int) : RVal G s (.int n) (.int n)
   | bool (b : Bool) : RVal G s (.bool b) (.bool b)
   | fn {f b ρ cenv} : s.fns.get? f = some (.closure b cenv) → G.fnClo f = (b, ρ) → RVal G s (.fn f) (.clo b ρ)
+  /-- a list: every element is a delayed expression whose tree is the corresponding element of the by-name list -/
+  | list {xs elems} : xs.map (trArg G s) = elems →
+      (∀ a ∈ xs, ∃ t lit, a = .thunk t lit ∧ (s.cells.get? t).isSome) → RVal G s (.list xs) (.list elems)
 
 structure Inv (G : Ghost) (s : Store) : Prop where
   cellEnv : ∀ t, (s.cells.get? t).isSome → G.cellEnv t = trEnv G s (s.getCell t).env
@@ -223,6 +264,17 @@ theorem RVal.ext {G s G' s' v tv} (h : RVal G s v tv) (e : Ext G s G' s') : RVal
   | int n => exact .int n
   | bool b => exact .bool b
   | fn hg hc => obtain ⟨h1, h2⟩ := e.fns _ _ hg; exact .fn h1 (h2.trans hc)
+  | list hm hs =>
+    refine .list ?_ ?_
+    · rw [← hm]
+      apply List.map_congr_left
+      intro a ha
+      obtain ⟨t, lit, rfl, ht⟩ := hs a ha
+      obtain ⟨_, e1, _, g1⟩ := e.cells t ht
+      simp only [trArg, e1, g1]
+    · intro a ha
+      obtain ⟨t, lit, rfl, ht⟩ := hs a ha
+      exact ⟨t, lit, rfl, (e.cells t ht).1⟩
 
 theorem Den.ext {G s G' s' t tv} (e : Ext G s G' s') (ht : (s.cells.get? t).isSome) :
     Den G' s' t tv ↔ Den G s t tv := by
@@ -952,6 +1004,95 @@ theorem adequacy {ρ e tv} (hbn : BN ρ e tv) : ∀ (G : Ghost) (s : Store) (w :
       exact key (s.cells.size + 1) x (tagOf x) hax2 hx1 hx2 hsel (fun tv' h' => BN.sel hf hcallee h') ih2 (by simpa using hcomp)
     | false =>
       exact key (s.cells.size + 1 + 1) y (tagOf y) hay2 hy1 hy2 hsel (fun tv' h' => BN.sel hf hcallee h') ih2 (by simpa using hcomp)
+  | @mkList ρ n spf args sp hn =>
+    intro G s w t inv hex he hρ hnone
+    let env := (s.getCell t).env
+    have hsc := inv.cellScoped t hex
+    have hρ' : ρ = trEnv G s env := hρ.symm.trans (inv.cellEnv t hex)
+    have inv0 := inv.alloc (.lit n spf) env hsc
+    have ex0 := ext_alloc (G := G) inv.wf (.lit n spf) env (trEnv G s env)
+    obtain ⟨Ga, inva, exa, hmap, hargs⟩ := allocArgs_spec env args _ _ inv0 (hsc.ext ex0)
+    have hb : builtinOf n = some bList := by simp [builtinOf, hn]
+    have hcomp : Eval s w (.comp (bodyOf (.call (.lit n spf) args sp) env)) 0
+        (.ok (.arg (.strict (.list (allocArgs (alloc s (.lit n spf) env) env args).2))))
+        (allocArgs (alloc s (.lit n spf) env) env args).1 w :=
+      rule_call_builtin s w 0 n spf args sp env bList (builtin_name hn (by decide)) hb (by
+        simp only [bList, retV, Comp.bind]; exact .ret _ _ _ _)
+    have ex0a := ex0.trans exa
+    have hd : Den Ga (allocArgs (alloc s (.lit n spf) env) env args).1 t (.list (args.map (fun a => (a, ρ)))) :=
+      (Den.ext ex0a hex).2 (inv.den_of he hρ (BN.mkList hn))
+    have rv : RVal Ga (allocArgs (alloc s (.lit n spf) env) env args).1
+        (.list (allocArgs (alloc s (.lit n spf) env) env args).2) (.list (args.map (fun a => (a, ρ)))) := by
+      refine .list ?_ hargs
+      rw [hmap, trEnv_ext hsc ex0, ← hρ']
+    have st := sameStatic_resolve (.ok (.list (allocArgs (alloc s (.lit n spf) env) env args).2))
+      ((allocArgs (alloc s (.lit n spf) env) env args).1.cells.size + 1) (allocArgs (alloc s (.lit n spf) env) env args).1 t
+    refine ⟨Ga, _, _, 1, ?_, inva.resolve _ t _ _ hd rv, ex0a.trans (st.ext _), st.rval rv⟩
+    refine Eval.frameVal (h := 0) ?_
+    rw [newFrame_cur_none hnone, he]
+    exact hcomp
+  | @index ρ f a sp elems i e' ρ' v hf hcallee hidxarg hidx hbody ih1 ih2 ih3 =>
+    intro G s w t inv hex he hρ hnone
+    let env := (s.getCell t).env
+    have hsc := inv.cellScoped t hex
+    have hρ' : ρ = trEnv G s env := hρ.symm.trans (inv.cellEnv t hex)
+    have inv0 := inv.alloc f env hsc
+    have ex0 := ext_alloc (G := G) inv.wf f env (trEnv G s env)
+    obtain ⟨Ga, inva, exa, hmap, hargs⟩ := allocArgs_spec env [a] _ _ inv0 (hsc.ext ex0)
+    have hnew0 := alloc_get?_new s f env
+    have hna := exa.cells s.cells.size hnew0
+    -- the function expression evaluates to a list
+    obtain ⟨G2, s2, v2, h1, ev1, inv2, ex12, rv2⟩ :=
+      ih1 Ga (allocArgs (alloc s f env) env [a]).1 w s.cells.size inva hna.1
+        (by rw [hna.2.1, getCell_alloc_new]) (by rw [hna.2.2.2]; simp [Ghost.setCell, hρ'])
+        (by rw [allocArgs_getCell env [a] _ _ (by simp [alloc]), getCell_alloc_new])
+    cases rv2 with
+    | @list xs _ hxs hxsc =>
+      -- the argument cell
+      have hsz : (alloc s f env).cells.size = s.cells.size + 1 := by simp [alloc]
+      simp only [allocArgs, List.map_cons, List.map_nil, hsz, alloc, Heap.size_push, trArg, List.cons.injEq, Prod.mk.injEq,
+        and_true] at hmap
+      obtain ⟨hx1, hx2⟩ := hmap
+      obtain ⟨_, _, hax1, hax2⟩ := hargs (.thunk (s.cells.size + 1) (tagOf a)) (by simp [allocArgs, alloc])
+      cases hax1
+      have hρa : trEnv (G.setCell s.cells.size (trEnv G s env)) (alloc s f env) env = ρ := by
+        rw [trEnv_ext hsc ex0, ← hρ']
+      have hax2' := ex12.cells _ hax2
+      obtain ⟨G3, s3, v3, k3, f3, inv3, ex23, rv3⟩ := forces_any hidxarg ih2 G2 s2 w (s.cells.size + 1) inv2 hax2'.1
+        (by rw [hax2'.2.1]; exact hx1) (by rw [hax2'.2.2.2]; exact hx2.trans hρa)
+      cases rv3
+      -- the selected element: a delayed expression of the store, with the tree the by-name list holds at that position
+      rw [← hxs, pyIndex_map] at hidx
+      cases hp : pyIndex xs i with
+      | none => rw [hp] at hidx; cases hidx
+      | some x =>
+        rw [hp] at hidx
+        have htr : trArg G2 s2 x = (e', ρ') := by simpa using hidx
+        obtain ⟨tt, lit, rfl, htt2⟩ := hxsc x (pyIndex_mem hp)
+        simp only [trArg, Prod.mk.injEq] at htr
+        obtain ⟨hte, htg⟩ := htr
+        have hx23 := ex23.cells tt htt2
+        have ex02 := (ex0.trans exa).trans ex12
+        have ex03 := ex02.trans ex23
+        have hcomp := rule_call_list s w (max h1 k3) f a sp env xs i (.thunk tt lit) s2 s3 k3 hf
+          (ev1.mono _ (Nat.le_max_left _ _)) f3 (Nat.le_max_right _ _) hp
+        have hgρ : G3.cellEnv tt = ρ' := by rw [hx23.2.2.2]; exact htg
+        have hl : ∀ tv', Den G3 s3 tt tv' → Den G3 s3 t tv' := by
+          intro tv' hd
+          rw [Den.ext ex03 hex]
+          unfold Den at hd ⊢
+          rw [he, hρ]
+          rw [hx23.2.1, hte, hgρ] at hd
+          exact BN.index hf hcallee hidxarg (by rw [← hxs, pyIndex_map, hp]; simp [trArg, hte, htg]) hd
+        have inv3' := inv3.setRequestor tt t hl (ex03.cells t hex).1
+        have st3 := sameStatic_setRequestor s3 tt (some t)
+        obtain ⟨G4, s4, v4, h2, ev2, inv4, ex34, rv4⟩ :=
+          adequate_any hbody ih3 G3 (setRequestor s3 tt (some t)) w tt inv3' (by rw [st3.ex]; exact hx23.1)
+            (by rw [st3.expr, hx23.2.1]; exact hte) hgρ
+        refine ⟨G4, s4, v4, max (max h1 k3) h2 + 1, ?_, inv4, ex03.trans ((st3.ext G3).trans ex34), rv4⟩
+        refine Eval.frameTail (t' := tt) (lit := lit) ?_ (ev2.mono _ (by omega))
+        rw [newFrame_cur_none hnone, he]
+        exact hcomp.mono _ (Nat.le_max_left _ _)
   | @eqInt ρ n spf a1 a2 sp x y hn hb1 hb2 ih1 ih2 =>
     intro G s w t inv hex he hρ hnone
     let env := (s.getCell t).env
